@@ -34,6 +34,12 @@ class Untranslatable(Exception):
 FIELDS = {'read': 'FRead', 'modified': 'FModified', 'bound': 'FBound', 'hidden': 'FHidden'}
 
 
+def _is_code_names(a):
+    """`_referenced_names(<fn>.__code__)`: the names the code objects of the converted function refer to"""
+    return (isinstance(a, ast.Call) and isinstance(a.func, ast.Name) and a.func.id == '_referenced_names'
+            and len(a.args) == 1 and not a.keywords and isinstance(a.args[0], ast.Attribute) and a.args[0].attr == '__code__')
+
+
 def _union_terms(e):
     if isinstance(e, ast.BinOp) and isinstance(e.op, ast.BitOr):
         return _union_terms(e.left) + _union_terms(e.right)
@@ -348,6 +354,7 @@ def translate(repo):
                             # pass a union of `<scope>.referenced` for it
                             pos = [a.arg for a in func.args.args].index(r.id)
                             ncalls = 0
+                            code_names = False
                             for caller in ast.walk(t):
                                 if not isinstance(caller, ast.FunctionDef) or caller is func:
                                     continue
@@ -364,6 +371,13 @@ def translate(repo):
                                                 a = kw.value
                                         if isinstance(a, ast.Name) and a.id in cl:
                                             a = cl[a.id]
+                                        if _is_code_names(a):
+                                            # the names the code objects of the function refer to: a set that does not come from
+                                            # the activity analysis; the table treats it like `()` (nothing is assumed about it,
+                                            # a larger reserved set only removes candidates)
+                                            ncalls += 1
+                                            code_names = True
+                                            continue
                                         if a is None or not all(isinstance(x, ast.Attribute) and x.attr == 'referenced'
                                                                 for x in _union_terms(a)):
                                             raise Untranslatable('untranslatable: %s:%d: %s is called with a reserved set that is not '
@@ -371,7 +385,9 @@ def translate(repo):
                                         ncalls += 1
                             if not ncalls:
                                 raise Untranslatable('untranslatable: %s:%d: no call of %s found' % (os.path.relpath(p, repo), c.lineno, func.name))
-                            kind = True
+                            kind = not code_names
+                        elif _is_code_names(r):
+                            kind = False
                         else:
                             ts = _union_terms(r)
                             if not all(isinstance(x, ast.Attribute) and x.attr == 'referenced' for x in ts):
